@@ -50,14 +50,18 @@ def compute_distribution(case, built, graph):
             dist = mod.distribute(graph, built.dcop.agents.values(),
                                   computation_memory=lambda *a, **k: 1,
                                   communication_load=lambda *a, **k: 1)
+            # agents of the DCOP that the method left out stay out of the Distribution
+            # (spare agents: they register and run, but host nothing)
             mapping = {a: list(dist.computations_hosted(a)) for a in dist.agents}
-            for a in names:
-                mapping.setdefault(a, [])
             return mapping, method
         except Exception:
             pass
     rng = random.Random(case["dist_seed"])
-    return orch.random_mapping(rng, names, comps), "random"
+    mapping = orch.random_mapping(rng, names, comps)
+    if rng.random() < 0.5:
+        # leave the agents that host nothing out of the Distribution (spare agents)
+        mapping = {a: cs for a, cs in mapping.items() if cs} or mapping
+    return mapping, "random"
 
 
 def execute(case, tape):
